@@ -12,8 +12,8 @@ CHECKS = {
         "note": 'Partial: turning special soundness into soundness needs the random-oracle argument for the challenge hash, not proved here.',
     },
     "C14": {
-        "text": "Refinement proved: for every operation history over a family of instances (evaluate, puncture, clone, export+import), each instance equals its creation state with its lineage's punctures applied; key / public key never change; an instance answers iff point decodable, tag registered and not punctured in its lineage, always with the same value (uses the GGM history theorem at depth 8). Histories incl. resync of existing instances are run against the Rust and the model on every check; key material and the exported key-state bytes (bincode of key, public key, GGM prefixes as bitvec, punctured list) are compared byte for byte through a digest.",
-        "note": 'Import is a state copy in the model; the exported bytes are modelled and compared, the importing parser is exercised on the Rust only.',
+        "text": "Refinement proved: for every operation history over a family of instances (evaluate, puncture, clone, export+import), each instance equals its creation state with its lineage's punctures applied; key / public key never change; an instance answers iff point decodable, tag registered and not punctured in its lineage, always with the same value (uses the GGM history theorem at depth 8). Histories incl. resync of existing instances are run against the Rust and the model on every check; key material and the exported key-state bytes (bincode of key, public key, GGM prefixes as bitvec, punctured list) are compared byte for byte through a digest; the reader of those bytes is modelled too and import(export s) = s is proved (C14_export_import), so the state copy used by the history theorem is what the byte-level reader computes.",
+        "note": 'The reader accepts the canonical form bincode/bitvec write (head index 0, exact word count); every strict prefix and targeted damages of an export are refused by model and Rust alike.',
     },
     "C15": {
         "text": "Proved: decode(encode)=id for public keys (sorted one-byte tags, up to 256) and proofs (canonical scalars); inputs above the limits are refused; every key fits under the limit declared in the source (regenerated constant). JSON forms of points and evaluations are modelled (serde_json's compact output; base64 output, number arrays) and decode(encode)=id proved; the Rust's serde_json output is compared byte for byte with the model and damaged JSON (truncation, bad base64, 256, leading zero, extra/missing element, non-canonical scalar) must be refused by both.",
